@@ -49,6 +49,33 @@ func (c context) eq(d context) bool {
 		c.linkRel == d.linkRel
 }
 
+// same reports whether c and d agree in everything that the sanitization of later actions
+// can depend on. Unlike eq it also compares what is known about the element and attribute
+// names of conditional branches and about the attribute value seen so far.
+func (c context) same(d context) bool {
+	return c.eq(d) &&
+		sameNames(c.element.names, d.element.names) &&
+		c.element.partial == d.element.partial &&
+		c.element.continued == d.element.continued &&
+		sameNames(c.attr.names, d.attr.names) &&
+		c.attr.value == d.attr.value &&
+		c.attr.ambiguousValue == d.attr.ambiguousValue &&
+		c.attr.dynamic == d.attr.dynamic &&
+		c.attr.dynamicStart == d.attr.dynamicStart
+}
+
+func sameNames(a, b []string) bool {
+	if len(a) != len(b) {
+		return false
+	}
+	for i := range a {
+		if a[i] != b[i] {
+			return false
+		}
+	}
+	return true
+}
+
 // state describes a high-level HTML parser state.
 //
 // It bounds the top of the element stack, and by extension the HTML insertion
